@@ -25,13 +25,58 @@ func init() {
 				"information keeps an ECS record exactly when the decoded option's subnet is not the zero value (so a /0 opt-out is " +
 				"kept), and a malformed option is answered with FORMERR without calling the next stage.",
 			NotCovered: "the GeoIP data itself and the scope arithmetic of upstream answers; that the upstream honours the option.",
-			Rules: map[string]string{"C05-R18": "UpstreamPlain.processConn closes the connection after any failed exchange and pools it only after a successful one (shared with C17-R4)", "C05-R17": "dnsmsg.ecsData: the option's address is converted in the family the option declares (netutil.IPToAddr with that family), and the option is accepted exactly for family 1 or 2, a convertible address, a valid source length (the bits-beyond-the-prefix test is explored but not pinned by the table)", "C05-R16": "respIsECSDependent: a non-zero scope is ignored only when the question name itself is listed in FakeECSFQDNs (exact lookup of the name)", "C05-R15": "padAnswer only appends to the response's options, so the client-subnet echo survives padding on encrypted transports (table shared with C08-R5)", "C05-R14": "a query with more than one OPT record is answered with FORMERR and never reaches the handlers, which read and replace the client subnet in the last OPT record only (accept-gate table shared with C01-R1; table of the counting helper over additional sections of up to three records)", "C05-RC": "class rules (error chains, shadowed results, character classes, crossed arguments, pool constructors, array pools, loop completeness, loop-carried buffers, replacing setters, complete clones, Grow arithmetic, pooled-buffer escape, sorted searches, fresh decode targets, per-iteration objects, whole-message copies, codec guards) over the packages this property rests on", "C05-R13": "caches store and hand out clones (shared with C07-R4)", "C05-R12": "no slice built on a pooled byte buffer that the function gives back is stored into a longer-lived object (expected count today: zero Get/Put pairs in this code; positive instances are the seeded changes)", "C05-R11": "every maxminddb Lookup / Network call decodes into a zero value created for that call (the decoder leaves absent fields untouched)", "C05-R10": "geoip.File.Refresh: no path from installing new databases to the return skips clearing either lookup cache", "C05-R1": "handler decision tree and upstream-subnet provenance", "C05-R2": "who writes cacheRequest.subnet",
+			Rules: map[string]string{"C05-R19": "geoip.replaceSubnet never selects a network narrower than the desired length (/24, /56), whether or not the key already has one", "C05-R18": "UpstreamPlain.processConn closes the connection after any failed exchange and pools it only after a successful one (shared with C17-R4)", "C05-R17": "dnsmsg.ecsData: the option's address is converted in the family the option declares (netutil.IPToAddr with that family), and the option is accepted exactly for family 1 or 2, a convertible address, a valid source length (the bits-beyond-the-prefix test is explored but not pinned by the table)", "C05-R16": "respIsECSDependent: a non-zero scope is ignored only when the question name itself is listed in FakeECSFQDNs (exact lookup of the name)", "C05-R15": "padAnswer only appends to the response's options, so the client-subnet echo survives padding on encrypted transports (table shared with C08-R5)", "C05-R14": "a query with more than one OPT record is answered with FORMERR and never reaches the handlers, which read and replace the client subnet in the last OPT record only (accept-gate table shared with C01-R1; table of the counting helper over additional sections of up to three records)", "C05-RC": "class rules (error chains, shadowed results, character classes, crossed arguments, pool constructors, array pools, loop completeness, loop-carried buffers, replacing setters, complete clones, Grow arithmetic, pooled-buffer escape, sorted searches, fresh decode targets, per-iteration objects, whole-message copies, codec guards) over the packages this property rests on", "C05-R13": "caches store and hand out clones (shared with C07-R4)", "C05-R12": "no slice built on a pooled byte buffer that the function gives back is stored into a longer-lived object (expected count today: zero Get/Put pairs in this code; positive instances are the seeded changes)", "C05-R11": "every maxminddb Lookup / Network call decodes into a zero value created for that call (the decoder leaves absent fields untouched)", "C05-R10": "geoip.File.Refresh: no path from installing new databases to the return skips clearing either lookup cache", "C05-R1": "handler decision tree and upstream-subnet provenance", "C05-R2": "who writes cacheRequest.subnet",
 				"C05-R3": "lookup order and opt-out gate", "C05-R4": "echo gates and setECS table", "C05-R5": "ECS record / FORMERR tables"},
 		}})
 }
 
 func runC05(c *an.Ctx) {
 	classSweep(c, "C05")
+	// ---- R19: a network narrower than the desired length never becomes the subnet of a country or location
+	c.Floor("C05-R19", 2)
+	for _, inst := range []string{
+		"geoip.replaceSubnet[github.com/AdguardTeam/AdGuardDNS/internal/geoip.Country github.com/AdguardTeam/AdGuardDNS/internal/geoip.countrySubnets]",
+		"geoip.replaceSubnet[github.com/AdguardTeam/AdGuardDNS/internal/geoip.locationKey github.com/AdguardTeam/AdGuardDNS/internal/geoip.locationSubnets]",
+	} {
+		decide(c, "C05-R19", inst, an.DecideCfg{
+			Dom: an.Domain{"p0[p1]#ok": an.Bools, "bits": an.Ints(8, 24, 28), "prevbits": an.Ints(8, 16, 24), "p3": an.Ints(24)},
+			OnCall: func(it *an.Interp, name string, args []an.AV) (an.AV, bool) {
+				switch {
+				case strings.HasSuffix(name, "netip.Prefix).Bits"):
+					if args[0].String() == "p2" {
+						return it.Feature("bits"), true
+					}
+					return it.Feature("prevbits"), true
+				case strings.HasSuffix(name, "geoip.dist"):
+					a, b := avInt(args[0]), avInt(args[1])
+					if a < b {
+						a, b = b, a
+					}
+					return an.CInt(a - b), true
+				}
+				return an.AV{}, false
+			},
+			Expect: func(f an.Features, o an.AOutcome) string {
+				d := func(a int64) int64 {
+					if a < 24 {
+						return 24 - a
+					}
+					return a - 24
+				}
+				want := f.I("bits") <= 24 && (!f.B("p0[p1]#ok") || !(d(f.I("prevbits")) < d(f.I("bits"))))
+				stored := false
+				for _, e := range o.Effects {
+					if e.Kind == "mapupdate" || e.Kind == "store" && strings.HasPrefix(e.Name, "p0[") {
+						stored = true
+					}
+				}
+				if stored != want {
+					return fmt.Sprintf("stored=%v (a network is taken only if it is at least as broad as the desired length, and then only if it is not farther from it than the one already there); effects %v", want, o.Effects)
+				}
+				return ""
+			},
+		})
+	}
 	// ---- R18: an upstream socket on which an exchange failed is closed, not pooled: a late reply to that exchange
 	// would be read as the answer to the next query with the same ID and question, whatever subnet it was sent for
 	// (table of processConn, shared with C17-R4)
